@@ -103,6 +103,16 @@ def make_L(rng, kind, scale=1.0):
         L1 = G.velocity_gradient(rng, "simple") * scale
         w = float(rng.uniform(0.5, 3.0))
         return (lambda t, x: L0 * np.cos(w * t * scale) ** 2 + L1 * np.sin(w * t * scale) ** 2), dict(kind=kind)
+    if kind == "shared":        # the callable hands back the SAME array object on every call (a cached L)
+        L0 = G.velocity_gradient(rng, "general") * scale * float(rng.uniform(0.3, 3.0))
+        buf = L0.copy()
+        desc = dict(kind=kind, pristine=L0.copy(), mutated=False)
+
+        def get_shared(t, x):
+            if not np.array_equal(buf, L0):
+                desc["mutated"] = True      # the library wrote into the caller's array
+            return buf
+        return get_shared, desc
     if kind == "spin":          # purely rotational velocity gradient: zero strain rate, F still rotates
         w = rng.normal(size=3) * scale
         W = np.array([[0.0, -w[2], w[1]], [w[2], 0.0, -w[0]], [-w[1], w[0], 0.0]])
@@ -124,7 +134,7 @@ def make_L(rng, kind, scale=1.0):
     raise ValueError(kind)
 
 
-L_FAMILIES = ["simple", "pure", "axisym", "general", "trace", "time", "position", "stopping", "spin", "shear_then_spin"]
+L_FAMILIES = ["simple", "pure", "axisym", "general", "trace", "time", "position", "stopping", "spin", "shear_then_spin", "shared"]
 
 
 def init_texture(rng, n, kind):
